@@ -3,7 +3,7 @@
    with parse_message on the decoded tree, 8 zone options).  Each conversion is written once in the model; the theorems
    state them.  The whole-message statement "exactly one Trip per distinct descriptor, fields of its own entity" is
    C07_own_entity_wins / C07_bare_only (Properties/C07.v) together with these per-field conversions. *)
-From GV Require Import Base.Prelude Model.RtTypes Model.RtWire Model.Realtime Proofs.RealtimeProofs Gen.Enums Gen.NyctTables.
+From GV Require Import Base.Prelude Model.RtTypes Model.RtWire Model.Realtime Proofs.RealtimeProofs Proofs.MergeProofs Proofs.MentionProofs Gen.Enums Gen.NyctTables.
 
 (* HH:MM:SS becomes that duration (ns), for every two-digit H, M, S - hours past 24 included *)
 Theorem C02_start_time : forall h m s, 0 <= h < 100 -> 0 <= m < 100 -> 0 <= s < 100 ->
@@ -51,3 +51,14 @@ Proof. exact absent_descriptor_fields. Qed.
 Print Assumptions C02_absent_descriptor_fields.
 Example C02_example : parse_start_time (Some "25:10:30") = (true, 90630 * 1000000000).
 Proof. vm_compute. reflexivity. Qed.
+
+(* ---- exactly one Trip per distinct trip descriptor mentioned anywhere, for EVERY message and extension configuration: the
+   identifiers of the result's trips are exactly the descriptors mentioned by the (non-skipped) entities - in a trip update,
+   in a vehicle position, or as an identifying informed entity of an alert - and no identifier occurs twice ---- *)
+Theorem C02_trips_are_the_mentioned : forall cm tz cfg m, let p := pre_pass cfg m in
+  forall k, In k (map tr_key (rt_trips (parse_message cm tz cfg m))) <-> In k (flat_map (entity_trip_keys cm tz) (combine (pr_entities p) (pr_skip p))).
+Proof. exact trips_are_the_mentioned. Qed.
+Print Assumptions C02_trips_are_the_mentioned.
+Theorem C02_one_trip_per_descriptor : forall cm tz cfg m, NoDup (map tr_key (rt_trips (parse_message cm tz cfg m))).
+Proof. exact trip_ids_unique. Qed.
+Print Assumptions C02_one_trip_per_descriptor.
